@@ -23,11 +23,11 @@ func init() {
 
 func init() {
 	cfgs["C18"] = &propCfg{
-		Workers: map[string]int{"pristine": 16},
+		Workers: map[string]int{"pristine": 12, "pristine-race": 4},
 		QuickS:  25, ThorS: 420,
 		Real: []string{"SIG.Sign", "SIG.Verify", "Msg.Pack/PackBuffer/Unpack", "PackRR", "KEY.NewPrivateKey / ReadPrivateKey (fixed test keys)", "crypto/rsa, crypto/ecdsa, crypto/ed25519"},
 		Stub: []string{"the network between signer and verifier is a byte buffer with injected bit flips, truncation and delay (no sockets are involved in SIG(0) itself)"},
-		Rule: "A run = one generated message (recipe over a corpus of ~70 record types, compressed or not, up to ~60 KiB, including 254..300 additional records) signed with one of 12 fixed keys (RSASHA1/256/512, ECDSA P-256/P-384, Ed25519) at a simulated instant, then 1..6 deliveries, each with a fault (bit flip in a named region, truncation, other key, key with another owner) and a verification instant relative to the validity window (before, at inception, inside, at expiration, after). Non-trivial = the message was signed and at least one delivery was judged. Distinct = distinct digest of (scenario outcome log).",
+		Rule: "A run = one generated message (recipe over a corpus of ~70 record types, compressed or not, up to ~60 KiB, including 254..300 additional records) signed with one of 12 fixed keys (RSASHA1/256/512, ECDSA P-256/P-384, Ed25519) at a simulated instant, then 1..6 deliveries, each with a fault (bit flip in a named region, truncation, other key, key with another owner) and a verification instant relative to the validity window (before, at inception, inside, at expiration, after, far later at 2^16 / 2^17 / 2^24 s + d; windows of 0 s, inverted windows). About one run in twelve instead lets 2..4 signer/verifier pairs with their own keys work concurrently under the seeded scheduler (a quarter of the workers run under the race detector). Non-trivial = the message was signed and at least one delivery was judged. Distinct = distinct digest of (scenario outcome log).",
 		Assume: []string{
 			"testing/synctest fake clock supplies time.Now for SIG.Verify; backwards clock jumps are modelled as signer-side skew of inception/expiration",
 			"oracle/wire.go (independent wire walker) locates the regions of the signed octets",
